@@ -25,7 +25,7 @@ def EqType.WF : EqType → Prop
 def EqType.Inhabits {V : Type} (t : EqType) (a : Val V) : Prop :=
   ∃ v, Spec.variantOf t a.variant = some v ∧ a.fields.length = v.fields.length
 
-theorem arm_correct {V : Type} (ops : EqOps V) (k : Nat) (v : EqVariant) (hv : v.WF)
+theorem eq_arm_correct {V : Type} (ops : EqOps V) (k : Nat) (v : EqVariant) (hv : v.WF)
     (xs ys : List V) (hx : xs.length = v.fields.length) (hy : ys.length = v.fields.length) :
     Sem.evalEqStmts ops
         (matchArm k (Sem.eqNames v) ys (arm v).otherPat ++ matchArm k (Sem.eqNames v) xs (arm v).selfPat)
@@ -109,7 +109,7 @@ theorem partialEq_correct {V : Type} (ops : EqOps V) (t : EqType) (ht : t.WF)
       subst hvb'
       have hmem : vb ∈ vs := List.mem_of_getElem? hva
       simp only [hbv, if_true]
-      rw [arm_correct ops a.variant vb (ht vb hmem) a.fields b.fields hla hlb]
+      rw [eq_arm_correct ops a.variant vb (ht vb hmem) a.fields b.fields hla hlb]
       simp
     · have : (a.variant == b.variant) = false := by
         simp; exact fun h => hbv h.symm
